@@ -15,6 +15,7 @@ if TYPE_CHECKING:
 
 from autoarray.structures.arrays import array_2d_util
 from autoconf import conf
+from autoconf.tools.decorators import cached_property_names
 
 
 def to_new_array(func):
@@ -83,6 +84,7 @@ class AbstractNDArray(ABC):
     def invert(self):
         new = self.copy()
         new._array = np.invert(new._array)
+        new._clear_cached_properties()
         return new
 
     @classmethod
@@ -135,7 +137,16 @@ class AbstractNDArray(ABC):
         """
         new_array = self.copy()
         new_array._array = array
+        new_array._clear_cached_properties()
         return new_array
+
+    def _clear_cached_properties(self):
+        """
+        Remove every `cached_property` value stored in the instance `__dict__`, so that it is recomputed from
+        the array the instance now holds (a copy carries the cached values of the object it was copied from).
+        """
+        for name in cached_property_names(type(self)):
+            self.__dict__.pop(name, None)
 
     def copy(self):
         new = copy(self)
